@@ -164,3 +164,32 @@ Example C15_resume_example :
      (Wake, []); (LockOk, []); (Tick 9, [])]
   /\ m_lock (mon_run (mon0 true) [(Wake, [CallLock]); (LockOk, []); (Tick 5, [Eval 1 5])]) = LHeld.
 Proof. exact resume_example. Qed.
+
+(* LastEval is part of the shared group record.  An evaluator reply (responseLoop -> checkAndSendResponseToModules:
+   incident opened / closed, notifications) is a no-op on everything the gate and the pacing depend on ... *)
+Theorem C15_response_keeps_pacing : forall mi s g st,
+  step_i mi s (Response g st) = (s, []) /\ step_s mi s (Response g st) = (enter_wait s, []).
+Proof. exact response_keeps_pacing. Qed.
+Print Assumptions C15_response_keeps_pacing.
+
+(* ... and so is everything that is not an iteration of the request loop or a group-list refresh: expiry, reconnect,
+   unlock, lock errors, re-lock, wake-ups.  A request goroutine started by a later lock acquisition paces against the
+   same LastEval values (C15_pacing quantifies over all such traces: its bound holds ACROSS lock-holding periods). *)
+Theorem C15_relock_keeps_pacing : forall mi s e, touches_records e = false ->
+  groups (fst (step_i mi s e)) = groups s /\ groups (fst (step_s mi s e)) = groups s.
+Proof. exact relock_keeps_pacing. Qed.
+Print Assumptions C15_relock_keeps_pacing.
+
+Theorem C15_relock_keeps_pacing_run : forall mi tr s,
+  (forall e, In e tr -> touches_records e = false) -> groups (fst (run (step_s mi) s tr)) = groups s.
+Proof. exact relock_keeps_pacing_run. Qed.
+Print Assumptions C15_relock_keeps_pacing_run.
+
+Example C15_response_relock_example :
+  snd (run (step_s 30) (init_state true one_group)
+         [Wake; LockOk; Tick 100000000000; Response 1 3; Response 1 1; Tick 100001000000; Expired; Wake; UnlockOk; Wake; LockOk;
+          Tick 100002000000; Tick 129999999999; Tick 130000000001])
+  = [(Wake, [CallLock]); (LockOk, []); (Tick 100000000000, [Eval 1 100000000000]); (Response 1 3, []); (Response 1 1, []);
+     (Tick 100001000000, []); (Expired, []); (Wake, [CallUnlock]); (UnlockOk, []); (Wake, [CallLock]); (LockOk, []);
+     (Tick 100002000000, []); (Tick 129999999999, []); (Tick 130000000001, [Eval 1 130000000001])].
+Proof. exact response_relock_example. Qed.
